@@ -6,15 +6,17 @@
 #   s2: /verif/sim2 -> /repo/internal/verifsim2  (tasksim) + /verif/yield -> /repo/internal/verifyield
 #       + component sources instrumented by cmd/yieldgen from the CURRENT /repo tree
 set -euo pipefail
-B=${1:-/verif/.build/default}
+V=$(cd "$(dirname "$0")" && pwd)       # this checkout of the verification tree
+R=${VERIF_REPO:-/repo}                 # the repository tree to build from (default: /repo's working tree)
+B=${1:-$V/.build/default}
 OUT=${2:-$B/sim.test}
 ENGINE=${3:-s1}
 mkdir -p "$B"
 export GOTOOLCHAIN=local GOFLAGS=-mod=mod GOPROXY=off GOSUMDB=off
 GO=/opt/veriftools/go1.26.8/bin/go
 [ -x "$GO" ] || GO=go1.26.8
-cp /repo/go.mod "$B/go.mod"
-cp /repo/go.sum "$B/go.sum"
+cp "$R/go.mod" "$B/go.mod"
+cp "$R/go.sum" "$B/go.sum"
 S2FILES="
 internal/adapter/balancer/priority.go
 internal/adapter/balancer/round_robin.go
@@ -39,14 +41,14 @@ if [ "$ENGINE" = s2 ]; then
   # porcupine for linearizability checks: exact cached version
   grep -q anishathalye/porcupine "$B/go.mod" || echo 'require github.com/anishathalye/porcupine v1.3.0' >> "$B/go.mod"
   files=""
-  for f in $S2FILES; do [ -f "/repo/$f" ] && files="$files /repo/$f"; done
-  (cd /verif/cmd/yieldgen && "$GO" run main.go "$B/inst" $files) > "$B/inst/sites.txt"
+  for f in $S2FILES; do [ -f "$R/$f" ] && files="$files $R/$f"; done
+  (cd "$V/cmd/yieldgen" && "$GO" run main.go "$B/inst" $files) > "$B/inst/sites.txt"
 fi
 # xsync hashes keys with hash/maphash, whose result depends on per-process random AES keys:
 # bucket order (and with it Range order and every schedule that yields inside a Range callback)
 # would differ between processes. The module cache may not be overlaid, so the copied go.mod
 # gets a replace directive pointing at a patched copy in which only the key hash is FNV-1a.
-XS=$(cd /repo && "$GO" list -m -modfile="$B/go.mod" -f '{{.Dir}}' github.com/puzpuzpuz/xsync/v4 2>/dev/null || true)
+XS=$(cd "$R" && "$GO" list -m -modfile="$B/go.mod" -f '{{.Dir}}' github.com/puzpuzpuz/xsync/v4 2>/dev/null || true)
 if [ -n "$XS" ] && [ -f "$XS/map.go" ] && grep -q 'maphash.Comparable(' "$XS/map.go"; then
   rm -rf "$B/xsync"; mkdir -p "$B/xsync"
   cp -r "$XS"/. "$B/xsync/"; chmod -R u+w "$B/xsync"; rm -f "$B/xsync"/*_test.go
@@ -73,27 +75,27 @@ func verifDetHash[K comparable](seed maphash.Seed, k K) uint64 {
 XSEOF
   echo "replace github.com/puzpuzpuz/xsync/v4 => $B/xsync" >> "$B/go.mod"
 fi
-python3 - "$B" "$ENGINE" <<'PY'
+python3 - "$B" "$ENGINE" "$R" "$V" <<'PY'
 import json,os,sys
-B,engine=sys.argv[1],sys.argv[2]
+B,engine,R,V=sys.argv[1:5]
 rep={}
 if engine=='s1':
-    for f in sorted(os.listdir('/verif/sim')):
+    for f in sorted(os.listdir(V+'/sim')):
         if f.endswith('.go'):
-            rep['/repo/internal/verifsim/'+f]='/verif/sim/'+f
+            rep[R+'/internal/verifsim/'+f]=V+'/sim/'+f
 else:
-    for f in sorted(os.listdir('/verif/sim2')):
+    for f in sorted(os.listdir(V+'/sim2')):
         if f.endswith('.go'):
-            rep['/repo/internal/verifsim2/'+f]='/verif/sim2/'+f
-    for f in sorted(os.listdir('/verif/yield')):
+            rep[R+'/internal/verifsim2/'+f]=V+'/sim2/'+f
+    for f in sorted(os.listdir(V+'/yield')):
         if f.endswith('.go'):
-            rep['/repo/internal/verifyield/'+f]='/verif/yield/'+f
+            rep[R+'/internal/verifyield/'+f]=V+'/yield/'+f
     for f in sorted(os.listdir(B+'/inst')):
         if f.endswith('.go'):
             rep['/'+f.replace('__','/')]=B+'/inst/'+f
 json.dump({'Replace':rep},open(B+'/overlay.json','w'),indent=1)
 PY
-cd /repo
+cd "$R"
 PKG=./internal/verifsim/
 [ "$ENGINE" = s2 ] && PKG=./internal/verifsim2/
 "$GO" test -c -vet=off -tags verif -modfile="$B/go.mod" -overlay="$B/overlay.json" -o "$OUT" $PKG
